@@ -1275,6 +1275,10 @@ def model(ex, st, c, args):
         if t.size() < bits:
             t = z3.SignExt(bits - t.size(), t) if src[0] == 'i' else z3.ZeroExt(bits - t.size(), t)
         return Int(t, dst[0] == 'i')
+    m = re.fullmatch(r'<(.*) as TryInto<(.*)>>::try_into', c)
+    if m and not re.fullmatch(r'(u64|usize|i64|u32|i32)', m.group(1)):
+        # blanket impl: TryInto<U> for T delegates to <U as TryFrom<T>>::try_from
+        return Tail('<%s as TryFrom<%s>>::try_from' % (m.group(2), m.group(1)), list(args))
     m = re.fullmatch(r'<(u64|usize) as TryInto<(usize|i64)>>::try_into', c)
     if m:
         x = args[0]
@@ -2335,6 +2339,16 @@ def model(ex, st, c, args):
         py = s.concrete()
         if py is not None and all(ord(ch) < 128 for ch in py):
             out = sstr({'trim': py.strip(' \t\n\r\x0b\x0c'), 'to_lowercase': py.lower(), 'to_uppercase': py.upper()}[kind])
+        elif kind == 'trim' and s.is_plain() and len(s.items) <= 6:
+            # exact: branch over (first, last+1) non-whitespace positions
+            n_ = len(s.items)
+            ws = [is_ws(x.t) for x in s.items]
+            opts = [(z3.And(*ws) if ws else z3.BoolVal(True), (0, 0))]
+            for i_ in range(n_):
+                for j_ in range(i_ + 1, n_ + 1):
+                    opts.append((z3.And(*(ws[:i_] + [z3.Not(ws[i_]), z3.Not(ws[j_ - 1])] + ws[j_:])), (i_, j_)))
+            i_, j_ = B(opts)
+            out = SStr(list(s.items[i_:j_]))
         else:
             out = SStr([Opaque(kind, (SStr(s.items),))])
         return Ref(st.new_cell(out), []) if kind == 'trim' else out
